@@ -200,27 +200,37 @@ impl Sys {
             if es.len() != pos.len() {
                 continue;
             }
-            let target = (-rest * sign).into_bigint();
-            // every set bit of the target must be one of the positions
-            let mut covered = <Fq as PrimeField>::BigInt::from(0u64);
-            let mut assign: Vec<(usize, bool)> = Vec::new();
-            for (u, e) in &pos {
-                let bit = target.get_bit(*e as usize);
-                if bit {
-                    let mut p2 = <Fq as PrimeField>::BigInt::from(1u64);
-                    p2.muln(*e);
-                    covered.add_with_carry(&p2);
+            // the canonical integer of the required sum, then the same residue plus the modulus (the
+            // non-canonical decomposition a missing range check would admit)
+            let canonical = (-rest * sign).into_bigint();
+            let mut shifted = canonical;
+            let carry = shifted.add_with_carry(&<Fq as PrimeField>::MODULUS);
+            let mut candidates = vec![canonical];
+            if !carry {
+                candidates.push(shifted);
+            }
+            for target in candidates {
+                // every set bit of the target must be one of the positions
+                let mut covered = <Fq as PrimeField>::BigInt::from(0u64);
+                let mut assign: Vec<(usize, bool)> = Vec::new();
+                for (u, e) in &pos {
+                    let bit = target.get_bit(*e as usize);
+                    if bit {
+                        let mut p2 = <Fq as PrimeField>::BigInt::from(1u64);
+                        p2.muln(*e);
+                        covered.add_with_carry(&p2);
+                    }
+                    assign.push((*u, bit));
                 }
-                assign.push((*u, bit));
+                if covered != target {
+                    continue;
+                }
+                for (u, bit) in assign {
+                    z[u] = if bit { Fq::ONE } else { Fq::ZERO };
+                    fixed[u] = true;
+                }
+                return Some(());
             }
-            if covered != target {
-                continue;
-            }
-            for (u, bit) in assign {
-                z[u] = if bit { Fq::ONE } else { Fq::ZERO };
-                fixed[u] = true;
-            }
-            return Some(());
         }
         None
     }
@@ -262,6 +272,34 @@ fn item_ok(z: &[Fq], sys: &Sys, it: &MatItem) -> Result<(), String> {
             } else {
                 Err(format!("{what} is {} but the native value is {}", hex::encode(got.to_bytes()), hex::encode(native.to_bytes())))
             }
+        }
+        MatItem::Coords { what, bits, per, native } => {
+            use num_bigint::BigUint;
+            let q = &crate::refmodel::Q.m;
+            let int = |cols: &[usize]| -> Option<BigUint> {
+                let mut n = BigUint::from(0u32);
+                for (i, c) in cols.iter().enumerate() {
+                    let v = z[sys.col_of_witness(*c)];
+                    if v == Fq::ONE {
+                        n.set_bit(i as u64, true);
+                    } else if v != Fq::ZERO {
+                        return None;
+                    }
+                }
+                Some(n)
+            };
+            let (x, y) = match (int(&bits[..*per]), int(&bits[*per..])) {
+                (Some(x), Some(y)) => (x, y),
+                _ => return Err(format!("{what} are not all boolean")),
+            };
+            if &x >= q || &y >= q {
+                return Err(format!("{what} are a non-canonical decomposition (a coordinate is not below q): x = {x:x}, y = {y:x}"));
+            }
+            let want = crate::api::Coords::of::<crate::api::Ark>(native).affine().map_err(|e| e)?;
+            if !crate::refmodel::CURVE.same_element(&want, &crate::refmodel::Pt { x, y }) {
+                return Err(format!("{what} do not denote the element"));
+            }
+            Ok(())
         }
         MatItem::Bool { what, w, native } => {
             let got = z[sys.col_of_witness(*w)];
